@@ -590,6 +590,11 @@ def compare_with_native(d, key, info, call, H, samples, ns, pts, tol=1e-8, fail_
         extra['rel_err_with_contiguous_reorder'] = e2
         if e2 is not None and e2 <= tol:
             fail_key = 'noncontiguous-phi-into-4D5D-kernel'
+        elif 'too many indices for array' in extra.get('exception', ''):
+            # five demes alive, a branch (e.g. the frozen copy for an ancient sample) and an extinction at the same time: Demes.py applies the
+            # branch first (a transient sixth deme: _split_phi has no 5 -> 6 case and returns phi unchanged while the label list grows), then
+            # removes the extinct deme, and the next integration indexes a 4-D phi with five labels
+            fail_key = 'transient-sixth-deme-at-branch'
         elif has_frozen5_mismatch(ops):
             fail_key = 'frozen5-takes-frozen4-flag'
         elif 'more than 5 demes' in extra.get('exception', ''):
